@@ -47,6 +47,9 @@ class Rec:
         self.events = []
         self.cut = None
         self.sr_memo = {}
+        self.book = D.ResultBook()
+        self.mesh_call = None  # (name, args, kwargs) of the call that set up the mesh the object holds
+        self.rd_call = None
         self.fp = None
         try:
             self.s2pp, self.u2pp = D.index_maps(ph)
@@ -61,14 +64,16 @@ def _rec(ph):
 
 def _project(r, building=None):
     core = D.project_core(r.ph, r.s2pp, r.u2pp, r.sr_memo, building)
-    return dict(core, cp=dict(on=False, ok=True, shared=False), held=[])
+    return dict(core, cp=dict(on=False, ok=True, shared=False), held=[], rs=r.book.project(r.ph))
 
 
 def _event(r, op, **kw):
+    rewritten = kw.pop("rewritten", ())
     ev = dict(op=op, lay="none", m="none", keep=False, f=False, typ="none", cls="none", k="none", i=0, chg=True,
-              refused=False, err=False, stored=True, qok=True, frame=True, errtext="")
+              own=True, via="copy", snapok=True, refused=False, err=False, stored=True, qok=True, frame=True, errtext="")
     ev.update(kw)
     ev["obs"] = _project(r, ev["k"] if op == "Query" else None)
+    ev["snapok"] = r.book.check_frozen(r.ph, rewritten)
     ev["test"] = os.environ.get("PYTEST_CURRENT_TEST", "")[:120]
     r.events.append(ev)
     r.fp = D.content_fingerprint(r.ph)
@@ -111,6 +116,25 @@ def _result(ph, name, ret):
         return {"frequencies": ret}
     if name == "get_group_velocity_at_q":
         return {"group_velocities": ret}
+    if name == "get_mesh_dict":
+        return {k: ret[k] for k in ("frequencies", "weights", "group_velocities")}
+    if name == "run_thermal_properties":
+        d = ph.get_thermal_properties_dict()
+        return {k: d[k] for k in ("free_energy", "entropy", "heat_capacity")}
+    if name == "run_total_dos":
+        d = ph.get_total_dos_dict()
+        return {k: d[k] for k in ("frequency_points", "total_dos")}
+    if name == "run_projected_dos":
+        d = ph.get_projected_dos_dict()
+        return {k: d[k] for k in ("frequency_points", "projected_dos")}
+    if name == "run_thermal_displacements":
+        return {"thermal_displacements": ph.get_thermal_displacements_dict()["thermal_displacements"]}
+    if name == "run_thermal_displacement_matrices":
+        return {"thermal_displacement_matrices": ph.get_thermal_displacement_matrices_dict()["thermal_displacement_matrices"]}
+    if name == "run_moment":
+        return {"moment": np.array([ph.get_moment()])}
+    if name == "get_random_displacements_at_temperature":
+        return {"random_displacements": ret}
     return {}
 
 
@@ -123,8 +147,8 @@ def _compare(a, b):
         if x is None or y is None:
             return float("inf")
         try:
-            xs = [np.asarray(v, dtype=complex) for v in (x if isinstance(x, (list, tuple)) else [x])]
-            ys = [np.asarray(v, dtype=complex) for v in (y if isinstance(y, (list, tuple)) else [y])]
+            xs = [np.nan_to_num(np.asarray(v, dtype=complex)) for v in (x if isinstance(x, (list, tuple)) else [x])]
+            ys = [np.nan_to_num(np.asarray(v, dtype=complex)) for v in (y if isinstance(y, (list, tuple)) else [y])]
         except Exception:
             return float("inf")
         if len(xs) != len(ys):
@@ -169,11 +193,40 @@ def _wrap(name, orig, kind, describe):
             if ops == "skip":
                 r.fp = D.content_fingerprint(self)
                 return ret
+            compare = ops.pop("compare", True)
+            fp_now = D.state_fingerprint(self)
+            kq = ops.get("k", "none")
+            if ops["op"] == "Query":
+                if kq in ("qp", "qpgv"):
+                    r.book.qp = fp_now
+                    ops["rewritten"] = ("qpoints",)
+                elif kq in ("band", "bandgv"):
+                    r.book.qp = fp_now
+                    ops["rewritten"] = ("band",)
+                elif kq in D.MESH_KINDS:
+                    r.book.mesh[id(self._mesh)] = fp_now
+                    r.book.keep.append(self._mesh)
+                    r.mesh_call = (name, a, k)
+                    ops["rewritten"] = ("mesh",)
+                elif kq in D.CONSUMERS:
+                    if kq != "meshdict":
+                        r.book.tp = r.book.mesh.get(id(self._mesh))
+                    ops["rewritten"] = ("mesh", "tp", "tdos", "pdos", "td")
+            elif ops["op"] == "InitRD":
+                g = self._random_displacements
+                r.book.rd[id(g)] = D.state_fingerprint(self, ("fc", "mass"))
+                r.book.keep.append(g)
+                r.rd_call = (a, k)
             ev = _event(r, **ops)
-            if kind == "query" and ops.get("compare", True) is not False:
+            if kind == "query" and compare is not False:
                 _tl.d = _depth() + 1
                 try:
                     fr = _fresh(self, r)
+                    if kq in D.CONSUMERS:
+                        mname, ma, mk = r.mesh_call
+                        getattr(Phonopy, mname).__wrapped__(fr, *ma, **mk)
+                    elif kq == "rdq":
+                        Phonopy.init_random_displacements.__wrapped__(fr, *r.rd_call[0], **r.rd_call[1])
                     fret = getattr(Phonopy, name).__wrapped__(fr, *a, **k)
                     worst = _compare(_result(self, name, ret), _result(fr, name, fret))
                 finally:
@@ -231,8 +284,48 @@ def _gvflag(a, k, pos):
     return bool(k.get("with_group_velocities", a[pos] if len(a) > pos else False))
 
 
+def _mesh_kind(ph, a, k):
+    from phonopy.phonon.mesh import IterMesh
+    m = ph._mesh
+    full = bool(m.with_eigenvectors and np.prod(m.mesh_numbers) == len(m.ir_grid_points))
+    gvf = _gvflag(a, k, 5)
+    if isinstance(m, IterMesh):
+        return "meshiter" if full and not gvf else None
+    if m._frequencies is None:
+        return "meshlazy" if not full and not gvf else None
+    if gvf:
+        return "meshgv" if not full else None
+    return "meshfull" if full else "mesh"
+
+
 def _d_mesh(ph, a, k, ret):
-    return dict(op="Query", k="meshgv" if _gvflag(a, k, 5) else "mesh")
+    kind = _mesh_kind(ph, a, k)
+    return None if kind is None else dict(op="Query", k=kind)
+
+
+def _consumer(kq):
+    def d(ph, a, k, ret):
+        r = _rec(ph)
+        if r.mesh_call is None:
+            return None
+        return dict(op="Query", k=kq)
+    return d
+
+
+def _d_rdq(ph, a, k, ret):
+    r = _rec(ph)
+    if r.rd_call is None:
+        return None
+    seed = k.get("random_seed", a[3] if len(a) > 3 else None)
+    return dict(op="Query", k="rdq", compare=seed is not None)
+
+
+def _d_dataset_setter(ph, a, k, ret):
+    if ph._dataset is None:
+        r = _rec(ph)
+        prev = r.events[-1]["obs"]["dsT"] if r.events else "none"
+        return "skip" if prev == "none" else dict(op="ClearDataset")
+    return _d_dataset(ph, a, k, ret)
 
 
 WRAPS = {
@@ -240,7 +333,7 @@ WRAPS = {
     "symmetrize_force_constants": ("op", lambda ph, a, k, r: dict(op="Symmetrize")),
     "symmetrize_force_constants_by_space_group": ("op", lambda ph, a, k, r: dict(op="SymmetrizeSG") if _lay(ph) == "full" else None),
     "set_force_constants_zero_with_radius": ("op", lambda ph, a, k, r: dict(op="Cutoff")),
-    "generate_displacements": ("op", _d_dataset),
+    "generate_displacements": ("op", lambda ph, a, k, r: None if k.get("temperature") is not None else _d_dataset(ph, a, k, r)),
     "run_qpoints": ("query", lambda ph, a, k, r: dict(op="Query", k="qpgv" if _gvflag(a, k, 2) else "qp")),
     "run_mesh": ("query", _d_mesh),
     "run_band_structure": ("query", lambda ph, a, k, r: dict(op="Query", k="bandgv" if _gvflag(a, k, 2) else "band")),
@@ -248,10 +341,18 @@ WRAPS = {
     "get_frequencies": ("query", lambda ph, a, k, r: dict(op="Query", k="dmq")),
     "get_frequencies_with_eigenvectors": ("query", lambda ph, a, k, r: dict(op="Query", k="dmq")),
     "get_group_velocity_at_q": ("query", lambda ph, a, k, r: dict(op="Query", k="gvq")),
+    "init_mesh": ("query", _d_mesh),
+    "get_mesh_dict": ("query", _consumer("meshdict")),
+    "run_thermal_properties": ("query", _consumer("tp")),
+    "run_total_dos": ("query", _consumer("tdos")),
+    "run_projected_dos": ("query", _consumer("pdos")),
+    "run_thermal_displacements": ("query", _consumer("td")),
+    "run_thermal_displacement_matrices": ("query", _consumer("td")),
+    "run_moment": ("query", _consumer("moment")),
+    "set_group_velocity": ("op", lambda ph, a, k, r: dict(op="SetGV")),
+    "init_random_displacements": ("op", lambda ph, a, k, r: dict(op="InitRD")),
+    "get_random_displacements_at_temperature": ("query", _d_rdq),
     # operations the specification does not model: the history ends there
-    "init_mesh": ("op", lambda ph, a, k, r: None),
-    "set_group_velocity": ("op", lambda ph, a, k, r: None),
-    "init_random_displacements": ("op", lambda ph, a, k, r: None),
     "develop_mlp": ("op", lambda ph, a, k, r: None),
     "evaluate_mlp": ("op", lambda ph, a, k, r: None),
     "load_mlp": ("op", lambda ph, a, k, r: None),
@@ -260,7 +361,7 @@ PROPS = {
     "force_constants": _d_setfc,
     "nac_params": _d_setnac,
     "masses": lambda ph, a, k, r: dict(op="SetMasses"),
-    "dataset": _d_dataset,
+    "dataset": _d_dataset_setter,
     "displacements": lambda ph, a, k, r: dict(op="SetDisplacements"),
     "forces": _d_forces,
 }
